@@ -99,6 +99,13 @@ impl Block for ZeroCrossing {
         } else {
             o.len()
         };
+        if max_out == 0 {
+            // `o` is not empty, so it's the clock stream that is full.
+            return Ok(match self.out_clock.as_ref() {
+                Some(c) => BlockRet::WaitForStream(c, 1),
+                None => BlockRet::WaitForStream(&self.dst, 1),
+            });
+        }
         for sample in input.iter() {
             n += 1;
             if self.counter == (self.last_cross + (self.clock / 2.0)) as u64 {
